@@ -33,18 +33,35 @@ def derive_preconditions(prog):
     """{method_key: required_state or None} read from the callee bodies' assertions on
     `self.owned`; methods that call another Lock method first inherit nothing (only own asserts)."""
     req = {}
+    own = ownership_fields(prog)
+    from core import field_writes
+    own_rx = "|".join(re.escape(f) for f in sorted(own))
     for b in prog.find(r"state::Lock::[a-z_]+"):
         ba = BA.of(b)
         need = None
+        changed = [bb for bb, _, _ in field_writes(b, own_rx)]
         for i in sorted(ba.live):
             bs = ba.bool_switch(i)
             if bs is None:
                 continue
-            t_t, f_t, (kind, info) = bs
-            if kind != "place":
+            # a precondition is about the state on entry: a test made after the method changed the ownership
+            # (a closing `debug_assert!(!self.is_owned())`) states a postcondition
+            if any(ba.path([w], [i], incl=True) is not None for w in changed):
                 continue
-            fs = place_fields(info)
-            if not fs or fs[-1] != "state::Lock.owned" or info["l"] != 1:
+            t_t, f_t, (kind, info) = bs
+            # the asserted condition is "self is owned": the ownership field of `self` read directly, or the
+            # public observer is_owned() applied to `self`
+            if kind == "place":
+                fs = place_fields(info)
+                if not fs or fs[-1] not in own or info["l"] != 1:
+                    continue
+            elif kind == "call":
+                ct = info[1]
+                if b.key == "state::Lock::is_owned" or not call_matches(ct, M_ISOWNED) or not ct["args"]:
+                    continue
+                if 1 not in ba.ref_chain(op_local(ct["args"][0])):
+                    continue
+            else:
                 continue
             # only assertions made before any other effect: the switch must dominate all fcntl calls
 
@@ -73,6 +90,27 @@ def derive_preconditions(prog):
     return req
 
 
+def ownership_fields(prog):
+    """Canonical names of the fields of state::Lock that hold "this process owns the lock": the fields of `self`
+    that the observer Lock::is_owned reads (today the bool `owned`; a refactor may keep the same fact in an enum)."""
+    out = {"state::Lock.owned"}
+    for b in prog.find(r"state::Lock::is_owned"):
+        ba = BA.of(b)
+        for i in sorted(ba.live):
+            blk = b.blocks[i]
+            for s in blk["stmts"]:
+                if s["s"] != "assign":
+                    continue
+                rv = s["rv"]
+                ps = [op_place(rv.get("op"))] if rv["k"] == "use" else ([rv["place"]] if rv["k"] in ("ref", "discr") else [])
+                for p in ps:
+                    if p is not None and 1 in ba.ref_chain(p["l"]):
+                        fs = place_fields(p)
+                        if fs and fs[-1].startswith(LOCK + "."):
+                            out.add(fs[-1])
+    return out
+
+
 def contains_lock(prog, ty, depth=4):
     """Does a value of type `ty` hold a state::Lock by value: named in the type itself (tuple / generic
     argument) or, through the ADT table, in a field of a struct/enum mentioned in it?"""
@@ -89,6 +127,38 @@ def contains_lock(prog, ty, depth=4):
     return False
 
 
+def place_type(prog, body, place):
+    """Type of a place, as far as it can be read off the local's type and the ADT table: the local's type for an
+    unprojected place; the declared type of the last field for `X.f` (generic parameters are not substituted,
+    which is enough to recognise `Option<..Lock..>` fields of the repository's own structs). None if unknown."""
+    proj = [e for e in place["p"]]
+    if not proj:
+        return body.locals[place["l"]]
+    last = proj[-1]
+    if last == "deref":
+        inner = place_type(prog, body, {"l": place["l"], "p": proj[:-1]})
+        if inner is None:
+            return None
+        if inner.startswith("&mut "):
+            return inner[5:]
+        if inner.startswith("&"):
+            return inner[1:]
+        return None
+    if last.startswith("f:"):
+        adt, _, fname = last[2:].rpartition(".")
+        a = prog.adts.get(adt)
+        if a is None and "::" in adt:
+            # enum variant field: 'Type::Variant.field'
+            a = prog.adts.get(adt.rsplit("::", 1)[0])
+        if a is None:
+            return None
+        for v in a["variants"]:
+            for f in v["fields"]:
+                if f["name"] == fname:
+                    return f["ty"]
+    return None
+
+
 RESULT_ADT = "core::result::Result"
 M_RESIDUAL = re.compile(r"(<.* as )?core::ops::try_trait::FromResidual(<.*>)?>?::from_residual")
 M_BRANCH = re.compile(r"(<.* as )?core::ops::try_trait::Try>?::branch")
@@ -96,7 +166,7 @@ M_MAPERR = re.compile(r"core::result::Result::map_err")
 
 
 class LockTS:
-    def __init__(self, prog, body, tracked_locals, entry_state=None, preconds=None, single_object=False, exclude=()):
+    def __init__(self, prog, body, tracked_locals, entry_state=None, preconds=None, single_object=False, exclude=(), starts=None):
         """tracked_locals: locals that *are* the lock (type Lock) or a `&mut Lock` to the one
         tracked object. entry_state: state at bb0 (for objects that exist on entry).
         exclude (single_object mode): lock locals that are objects of their own (created and dropped in this
@@ -115,6 +185,9 @@ class LockTS:
                         continue
                     self.tracked.add(i)
         self.entry_state = entry_state
+        # starts: {block: state} points where the tracked object comes into this body with a known state (a lock
+        # handed over by a coroutine that was awaited: its state where that coroutine returned it)
+        self.starts = dict(starts or {})
         self.pre = preconds if preconds is not None else derive_preconditions(prog)
         self._alias()
         self.in_state = {}      # bb -> lock states (all tags)
@@ -125,16 +198,21 @@ class LockTS:
 
     def _alias(self):
         # whole-local moves of the tracked object create aliases (let lock = self.lock; _t = move lock)
+        self.moved_out = {}
         changed = True
         while changed:
             changed = False
-            for blk in self.b.blocks:
+            for bi, blk in enumerate(self.b.blocks):
                 for s in blk["stmts"]:
                     if s["s"] != "assign" or s["place"]["p"]:
                         continue
                     rv = s["rv"]
                     if rv["k"] == "use":
                         p = op_place(rv["op"])
+                        if p and not p["p"] and p["l"] in self.tracked and "move" in rv["op"]:
+                            # (the source local is dead after the move: its later scope-end drop is a no-op)
+                            if bi not in self.moved_out.setdefault(p["l"], []):
+                                self.moved_out[p["l"]].append(bi)
                         if p and not p["p"] and p["l"] in self.tracked and s["place"]["l"] not in self.tracked:
                             self.tracked.add(s["place"]["l"])
                             changed = True
@@ -186,6 +264,8 @@ class LockTS:
                 self._flow(t["target"], {"U"}, work)
         if 0 in starts:
             self._flow(0, starts[0], work)
+        for bb_, st_ in sorted(self.starts.items()):
+            self._flow(bb_, set(st_), work)
         # refinement tables
         self.sw_isowned = {}
         for (sw, t_t, f_t, cbb) in ba.switches_on_call(M_ISOWNED):
@@ -209,10 +289,17 @@ class LockTS:
                     continue
                 place, arms, other = es
                 d = ba.single_def(place["l"])
-                if not d or d[0] != "call" or not call_matches(d[2], r"core::option::Option::(as_mut|as_ref)"):
-                    continue
-                chain = ba.ref_chain(op_local(d[2]["args"][0]))
-                if any(b.locals[x].startswith("core::option::Option<") and contains_lock(self.prog, b.locals[x]) for x in chain):
+                holder = False
+                if d and d[0] == "call" and call_matches(d[2], r"core::option::Option::(as_mut|as_ref)") and not place["p"]:
+                    # the Option may be a local of its own or a field of a state struct: what counts is the type
+                    # of the value as_mut()/as_ref() is applied to
+                    chain = ba.ref_chain(op_local(d[2]["args"][0]))
+                    tys = [b.locals[x] for x in chain] + list((d[2].get("arg_tys") or [])[:1])
+                    holder = any(self._is_lock_option(ty) for ty in tys)
+                else:
+                    # `match container { Some(..) => .. }` / `if let Some(..) = &mut state.container` on the place itself
+                    holder = self._is_lock_option(place_type(self.prog, b, place))
+                if holder:
                     for s in b.succ(sw):
                         if s != arms.get(1):
                             self.kill_edges.add((sw, s))
@@ -221,6 +308,14 @@ class LockTS:
             bb = work.popleft()
             for tag in list(self.in_tagged.get(bb, {})):
                 self._step(bb, tag, set(self.in_tagged[bb][tag]), work)
+
+    def _is_lock_option(self, ty):
+        """Is `ty` (behind any number of references) an Option whose payload holds a Lock by value?"""
+        if not ty:
+            return False
+        while ty.startswith("&"):
+            ty = ty[5:] if ty.startswith("&mut ") else ty[1:]
+        return ty.startswith("core::option::Option<") and contains_lock(self.prog, ty)
 
     def _event(self, key, st):
         self._ev[key] = frozenset(self._ev.get(key, frozenset()) | st)
@@ -290,9 +385,10 @@ class LockTS:
         if t["t"] == "drop":
             pl = t["place"]
             if not pl["p"] and pl["l"] in self.tracked and t["ty"] == LOCK and not self.single_object:
-                self._event((bb, "drop", ""), st)
-                # after the drop the object is gone on this path
-                return
+                if not any(mb == bb or self.ba.dominates(mb, bb) for mb in self.moved_out.get(pl["l"], [])):
+                    self._event((bb, "drop", ""), st)
+                    # after the drop the object is gone on this path
+                    return
         out_tag = self._tag_after(blk, tag)
         # successors with refinement
         if bb in self.sw_isowned:
